@@ -529,7 +529,7 @@ func GenScript(t *rapid.T, w *World, prefix string, cfg ScriptCfg) *Script {
 	if cfg.Panic > 0 && rapid.IntRange(1, cfg.Panic).Draw(t, "panics") == 1 {
 		at := rapid.IntRange(0, len(ops)).Draw(t, "panicAt")
 		s := w.NewScript(prefix)
-		ops = append(ops[:at], append([]Op{{K: OpPanic, S: s.Name}}, ops[at:]...)...)
+		ops = append(ops[:at], append([]Op{{K: OpPanic, S: s.Name, N: rapid.SampledFrom(PanicKinds).Draw(t, "panicValue")}}, ops[at:]...)...)
 		s.Ops = ops
 		return s
 	}
@@ -697,7 +697,11 @@ func (g *progGen) body(prefix string, nmw int, depth int) []*Stmt {
 				continue
 			}
 			if rootGroup {
-				s.Kind, s.Reuse = "group", nil
+				// also Controller("/", ...) / Controller("", ...): a controller mounted at the root is a group like any other
+				if s.Kind == "controller" && rapid.Bool().Draw(t, "rootControllerEmptyBase") {
+					s.Prefix = ""
+				}
+				s.Reuse = nil
 				s.Body = g.body("/", nmw+len(s.Hs), depth+1)
 				out = append(out, s)
 				continue
